@@ -58,6 +58,9 @@ RULES = {
     "path_param_field": ["path_param"],
     "path_param_nested": ["path_param"],
     "path_param_second": ["path_param"],
+    # the offending struct is ALSO used, correctly, by a route that is examined earlier (seeded change C08-4 cached the
+    # struct's fields per type and forgot the ones the first route had matched)
+    "path_param_shared": ["path_param"],
 }
 
 
@@ -734,16 +737,24 @@ def _plant(rng, spec, t, place, rule, info, M):
         t.add(rng, s2, xreg(hx))
         return True
 
-    if rule in ("path_param_field", "path_param_nested", "path_param_second"):
+    if rule in ("path_param_field", "path_param_nested", "path_param_second", "path_param_shared"):
         _x(spec)["import_pavex"] = True
         t.ops[0].insert(0, ["raw", "{bp}.import(pavex::blueprint::from![pavex]);", {"import": "pavex"}])
         s = rng.randrange(len(t.parent))
         params = rng.choice([["a"], ["a", "b"], []])
         extra = rng.choice(["zz", "a_", "id"])
-        bad = xtype(spec, fields=params[:rng.randrange(len(params) + 1)] + [extra])
+        if rule == "path_param_shared":
+            fields = params + [extra]
+            bad = xtype(spec, fields=fields)
+        else:
+            bad = xtype(spec, fields=params[:rng.randrange(len(params) + 1)] + [extra])
         path = "/%s/pp" % M + "".join("/{%s}" % p for p in params)
         pp_bad = "PathParams<%s>" % bad
         ins = []
+        if rule == "path_param_shared":
+            # a route of the root blueprint, registered first, whose template has every field of the struct
+            hg = xcomp(spec, "handler", methods=["GET"], path="/%s/ppg" % M + "".join("/{%s}" % p for p in fields), ins=[[pp_bad, "ref"]])
+            t.ops[0].insert(1, xreg(hg))
         if rule == "path_param_second":
             if not params:
                 params = ["a"]
